@@ -105,6 +105,11 @@ func (r *responseStream) Close() error {
 	return nil
 }
 
+// IsClosed reports whether the stream was closed because one of its messages could not be sent
+func (r *responseStream) IsClosed() bool {
+	return r.isClosed()
+}
+
 func (r *responseStream) isClosed() bool {
 	r.closedLk.RLock()
 	defer r.closedLk.RUnlock()
